@@ -2,7 +2,11 @@ package main
 
 import (
 	"fmt"
+	"sort"
+	"strconv"
 	"strings"
+	"sync"
+	"sync/atomic"
 	"time"
 
 	"verif/harness/model"
@@ -272,7 +276,8 @@ func checkC10(r *verdict.Run) {
 		cases = append(cases, c10Case{w, "other", "before-multi"}, c10Case{w, "other", "after-multi"}, c10Case{w, "self", "before-multi"})
 	}
 	r.Rule = fmt.Sprintf("exhaustive matrix: %d write/control rows (every effective write command per key type and state, reads, failing writes, writes to other keys, natural expiry, WATCH dropped by UNWATCH/DISCARD/EXEC) x issuer {watching connection, other connection} x position {between WATCH and MULTI, between MULTI and EXEC}; "+
-		"each case on a fresh emulator: WATCH w; [write]; MULTI; [write]; SET marker 1; EXEC - EXEC must be null and marker absent iff the row is an effective write; the reference model is run on the same script and must agree with the table (else inconclusive). distinct = (row, state, issuer, position, outcome)", len(table))
+		"each case on a fresh emulator: WATCH w; [write]; MULTI; [write]; SET marker 1; EXEC - EXEC must be null and marker absent iff the row is an effective write; the reference model is run on the same script and must agree with the table (else inconclusive). "+
+		"Plus the schedule dimension: 4-8 connections increment a shared string counter / hash field / list length with WATCH-read-MULTI-write-EXEC under yields injected around the data store lock; every successful EXEC must have written a distinct value and the final value must equal the number of successful EXECs. distinct = (row, state, issuer, position, outcome) + concurrent configurations", len(table))
 	r.Set("matrix_rows", len(table))
 	r.Set("matrix_cases", len(cases))
 	r.SetExhaustive(true)
@@ -308,5 +313,138 @@ func checkC10(r *verdict.Run) {
 			c10Run(r, e, cases[i])
 			e.close()
 		}
+	})
+	r.SetExhaustive(false)
+	c10Optimistic(r, tierPick(r, 12, 120))
+}
+
+// c10Optimistic: the schedule dimension of the property. Several connections increment shared counters with the
+// optimistic-locking idiom (WATCH k; read; MULTI; write read+1; EXEC), with yields injected around the data store
+// lock so that writes of other connections land at every position relative to an EXEC - also between its check of
+// the watched keys and its execution. A modification that goes unnoticed makes two successful transactions write the
+// same value: every successful EXEC must have written a distinct value, and the final value must equal the number
+// of successful EXECs (conservation), for a string counter, a hash field and a list length.
+func c10Optimistic(r *verdict.Run, runs int) {
+	parallel(runs, 8, func(run int) {
+		rng := shardRng(r, 9000+run)
+		c, err := startChild(false)
+		if err != nil {
+			r.Inconclusive("cannot start child")
+			return
+		}
+		defer c.Stop()
+		e, err := startEmu(c, "")
+		if err != nil {
+			r.Inconclusive("infra: " + err.Error())
+			return
+		}
+		c.Ctl("seed %d", r.Seed*97+int64(run))
+		c.Ctl("yield ds: %d %d", 100+rng.Intn(300), 50+rng.Intn(400))
+		kind := []string{"string", "hash", "list"}[run%3]
+		nconn := 4 + rng.Intn(5)
+		attempts := 150 + rng.Intn(150)
+		var mu sync.Mutex
+		written := map[int64]int{} // value written by a successful EXEC -> how many transactions wrote it
+		var successes, aborts int64
+		var wg sync.WaitGroup
+		var failed atomic.Bool
+		for ci := 0; ci < nconn; ci++ {
+			wg.Add(1)
+			go func(ci int) {
+				defer wg.Done()
+				cn, err := e.dial()
+				if err != nil {
+					return
+				}
+				defer cn.Close()
+				cn.Timeout = 20 * time.Second
+				for a := 0; a < attempts && !failed.Load(); a++ {
+					var cur int64
+					var readCmd, writeCmd []string
+					switch kind {
+					case "string":
+						readCmd = []string{"GET", "cnt"}
+					case "hash":
+						readCmd = []string{"HGET", "cnt", "n"}
+					case "list":
+						readCmd = []string{"LLEN", "cnt"}
+					}
+					if _, err := cn.Do("WATCH", "cnt"); err != nil {
+						failed.Store(true)
+						return
+					}
+					v, err := cn.Do(readCmd...)
+					if err != nil {
+						failed.Store(true)
+						return
+					}
+					if v.Kind == ':' {
+						cur = v.Int
+					} else if !v.Null {
+						cur, _ = strconv.ParseInt(v.Text(), 10, 64)
+					}
+					next := strconv.FormatInt(cur+1, 10)
+					switch kind {
+					case "string":
+						writeCmd = []string{"SET", "cnt", next}
+					case "hash":
+						writeCmd = []string{"HSET", "cnt", "n", next}
+					case "list":
+						writeCmd = []string{"RPUSH", "cnt", next}
+					}
+					vs, err := cn.Pipeline([][]string{{"MULTI"}, writeCmd, {"EXEC"}})
+					if err != nil || len(vs) != 3 {
+						failed.Store(true)
+						return
+					}
+					ex := vs[2]
+					mu.Lock()
+					if ex.Kind == '*' && !ex.Null {
+						successes++
+						written[cur+1]++
+					} else {
+						aborts++
+					}
+					mu.Unlock()
+				}
+			}(ci)
+		}
+		wg.Wait()
+		if failed.Load() {
+			r.Inconclusive("optimistic run: a connection failed")
+			return
+		}
+		fin, err := e.dial()
+		if err != nil {
+			return
+		}
+		defer fin.Close()
+		var final int64
+		switch kind {
+		case "string":
+			v, _ := fin.Do("GET", "cnt")
+			final, _ = strconv.ParseInt(v.Text(), 10, 64)
+		case "hash":
+			v, _ := fin.Do("HGET", "cnt", "n")
+			final, _ = strconv.ParseInt(v.Text(), 10, 64)
+		case "list":
+			v, _ := fin.Do("LLEN", "cnt")
+			final = v.Int
+		}
+		r.Eval(int(successes + aborts))
+		r.Count("optimistic_transactions", successes+aborts)
+		r.Count("optimistic_aborts", aborts)
+		dups := []int64{}
+		for val, n := range written {
+			if n > 1 {
+				dups = append(dups, val)
+			}
+		}
+		rep := map[string]any{"kind": kind, "connections": nconn, "attempts_per_connection": attempts, "successful_execs": successes, "aborted_execs": aborts, "final_value": final}
+		if len(dups) > 0 || final != successes {
+			sort.Slice(dups, func(i, j int) bool { return dups[i] < dups[j] })
+			r.Report("watch/missed/concurrent-write-between-check-and-execution/"+kind, fmt.Sprintf("run %d (%s counter, %d connections): %d EXECs succeeded but the counter ended at %d; values written by more than one successful transaction: %v - a modification of the watched key by another connection went unnoticed by EXEC", run, kind, nconn, successes, final, dups[:min(5, len(dups))]), rep)
+		}
+		r.Distinct(fmt.Sprintf("optimistic/%s/conns%d/aborted=%v", kind, nconn, aborts > 0))
 	})
 }
